@@ -7,4 +7,4 @@
 From Coq Require Import Extraction ExtrOcamlBasic ExtrOcamlNatInt.
 From CV Require Import Nfa.
 Extraction Language OCaml.
-Extraction "model.ml" find_at is_match_ref search_from wf_nfa caps_of fuel_for.
+Extraction "model.ml" find_at is_match_ref search_from wf_nfa caps_of fuel_for find_at_longest match_ends.
